@@ -456,6 +456,12 @@ def r06_7(ctx, A, chk):
                     sites.append((f, ag['variant'], st.get('line')))
     owner = chk.path if chk is not None else None
     extra = [(f, v, ln) for f, v, ln in sites if f.path != owner and not f.path.startswith(owner + '::') and 'fmt::' not in ((f.impl or {}).get('trait_path') or '')]
+    if sites and len(extra) == len(sites):
+        # none of the sites is in the function taken for the ordering check: the check was redesigned (moved into a helper of another
+        # shape) and the anchor is wrong, not the code
+        ctx.undecided(R, 'single-source', 'no ordering error is built in %s, which was taken for the ordering check; built in %s instead: the check was restructured' % (
+            owner, sorted({f.path.rsplit('::', 1)[-1] for f, _, _ in extra})))
+        return
     for f, v, ln in extra:
         ctx.violation(R, 'second-source:%s' % f.path, '%s builds Error::%s although it is not the ordering check: the accept / reject contract now has a second author' % (f.path.rsplit('::', 1)[-1], v), fn=f)
     ctx.check(R, bool(sites) and not extra, 'single-source', 'ordering error constructed outside the check (%d sites in the check)' % len([s_ for s_ in sites if s_ not in extra]))
